@@ -56,7 +56,7 @@ FxSetSp(n) == [fx EXCEPT !.sp = n]
 
 (* ---- autoGrowingCallFrameStack -------------------------------------------- *)
 AuIsEmpty == au.si = 0 /\ au.ss = 0
-AuIsFull == au.si = Len(au.segs) /\ au.ss >= FramesPerSegment
+AuIsFull == au.si = Len(au.segs) - 1 /\ au.ss >= FramesPerSegment      \* as repaired by fix d965ea3 (the comparison with Len(au.segs) was never true)
 AuSp == au.ss + au.si * FramesPerSegment
 AuPushPanics == au.ss >= FramesPerSegment /\ ~(au.si < Len(au.segs) - 1)
 AuPush(tag) ==
